@@ -86,6 +86,14 @@ pub fn render(mode: u16, sp: &Spec) -> Result<Vec<u32>, (String, Vec<u8>)> {
     match load(&bytes) {
         Loaded::Ok(f) => {
             let mut p = Vec::new();
+            // small sprites: the source cel's own image is requested first (a cel image never depends on
+            // the blend mode, and asking for it must not change what the frame looks like afterwards)
+            if sp.b.len() <= 72 * 72 {
+                let _ = crate::observe::guarded(&mut p, || "cel(0,1).image".into(), || f.cel(0, 1).image());
+                if !p.is_empty() {
+                    return Err((format!("cel image panic: {}", p[0].1), bytes));
+                }
+            }
             let img = crate::observe::guarded(&mut p, || "frame(0).image".into(), || f.frame(0).image());
             match img {
                 Some(i) => {
